@@ -47,22 +47,24 @@ type logSpec struct {
 
 // call is one AddChain / AddPreChain / GetSCTs invocation by a simulated caller.
 type call struct {
-	ID        int
-	Party     string
-	Kind      string // dist | getscts
-	Pre       bool
-	Leaf      *oracle.Cert
-	Root      int
-	Months    int
-	RawChain  [][]byte
-	ctx       context.Context
-	cancel    context.CancelFunc
-	Cancelled bool
-	MayCancel bool
-	Deadline  time.Duration
-	StartAt   time.Duration // fake time of launch
-	List      int           // proxy calls: the log list the Proxy must be working from (-1: cannot be told)
-	ListMoved bool          // the log-list file changed while the call ran
+	ID         int
+	Party      string
+	Kind       string // dist | getscts
+	Pre        bool
+	Leaf       *oracle.Cert
+	Root       int
+	Months     int
+	RawChain   [][]byte
+	ctx        context.Context
+	cancel     context.CancelFunc
+	Cancelled  bool
+	MayCancel  bool
+	Deadline   time.Duration
+	StartAt    time.Duration // fake time of launch
+	RootsKnown bool          // proxy calls: the proxy's distributor has had every opportunity to learn the logs' current roots
+	RootsMoved bool          // a log changed its accepted roots while the call ran
+	List       int           // proxy calls: the log list the Proxy must be working from (-1: cannot be told)
+	ListMoved  bool          // the log-list file changed while the call ran
 
 	mu        sync.Mutex
 	Contacted map[string]int // logURL -> times the chain was sent
@@ -110,23 +112,26 @@ type World struct {
 	stubTimeout time.Duration
 
 	// spec C17lock (lockspec.go): simulated mutexes, concurrent side operations, a Proxy
-	lock      bool
-	rt        *kernel.LockRuntime
-	ls        *kernel.Lockstep
-	ops       []*sideOp
-	maxOps    int
-	opsActive int
-	proxy     *submission.Proxy
-	llm       *submission.LogListManager
-	llPath    string
-	llJSON    [2][]byte
-	llWhich   int
-	llStolen  bool          // a direct RefreshLogList ran since the last change of the file
-	llSettled bool          // the driver let the proxy's machinery run to completion after the last change
-	llSince   time.Duration // fake time of the last change of the log-list file
-	llRetired string        // the log the second list retires ("" if it drops one instead)
-	partyMu   sync.Mutex
-	byParty   map[string]*call
+	lock         bool
+	rt           *kernel.LockRuntime
+	ls           *kernel.Lockstep
+	ops          []*sideOp
+	maxOps       int
+	opsActive    int
+	proxy        *submission.Proxy
+	llm          *submission.LogListManager
+	llPath       string
+	llJSON       [2][]byte
+	llWhich      int
+	llStolen     bool          // a direct RefreshLogList ran since the last change of the file
+	rootFlips    int           // lockstep spec: how often a log has changed its accepted roots
+	rootsSettled bool          // ... and the proxy's machinery has run to completion since the last such change
+	llSettled    bool          // the driver let the proxy's machinery run to completion after the last change
+	llDirty      bool          // the file changed (or was read directly) since the proxy\'s machinery last ran to completion
+	llSince      time.Duration // fake time of the last change of the log-list file
+	llRetired    string        // the log the second list retires ("" if it drops one instead)
+	partyMu      sync.Mutex
+	byParty      map[string]*call
 }
 
 // New is the constructor for the kernel.
@@ -594,6 +599,10 @@ func (w *World) Options(s *kernel.Sim) []kernel.Option {
 					if c.List == 1 && w.llRetired != "" {
 						s.Probe("proxy.call.retiring-list-in-force")
 					}
+					c.RootsKnown = c.List >= 0 && w.rootsSettled
+					if c.RootsKnown && w.rootFlips > 0 {
+						s.Probe("proxy.call.roots-known-after-flip")
+					}
 				}
 				s.Logf("%s %s pre=%v root=%d months=%d deadline=%v list=%d", c.Party, c.Kind, c.Pre, c.Root, c.Months, c.Deadline, c.List)
 				w.launch(c)
@@ -769,7 +778,10 @@ func (w *World) judge(c *call) {
 		case l.Interval != nil && (na.Before(l.Interval[0]) || !na.Before(l.Interval[1])):
 			s.Violate("contacted-incompatible", "temporal", "%s: log %s with interval [%v,%v) was sent a chain with NotAfter %v", c.Party, u, l.Interval[0], l.Interval[1], na)
 			return
-		case !l.Roots[c.Root] && c.Kind == "dist" && w.knownThroughout(u, c):
+		case !l.Roots[c.Root] && c.Kind == "proxy" && c.RootsKnown && !c.RootsMoved && !c.ListMoved && !l.RootsFail:
+			s.Violate("contacted-incompatible", "roots/proxy-after-refresh", "%s: log %s does not accept root %d, the proxy's distributor had every opportunity to learn that (its list and the logs' roots had settled), and the log was sent the chain", c.Party, u, c.Root)
+			return
+		case !l.Roots[c.Root] && c.Kind == "dist" && w.rootFlips == 0 && w.knownThroughout(u, c):
 			s.Violate("contacted-incompatible", "roots", "%s: log %s does not accept root %d, the distributor knew its roots, and it was sent the chain", c.Party, u, c.Root)
 			return
 		case c.Kind == "proxy" && c.List == 1 && !c.ListMoved && u == w.llRetired:
@@ -835,7 +847,11 @@ func (w *World) judge(c *call) {
 		s.Probe("call.error.proxy")
 		return
 	}
-	if c.Kind == "dist" && !w.distKnowledgeStable(c) {
+	if c.RootsMoved {
+		s.Probe("call.error.roots-changed-meanwhile") // which logs are compatible moved under the call
+		return
+	}
+	if c.Kind == "dist" && (!w.distKnowledgeStable(c) || w.rootFlips > 0) {
 		s.Probe("call.error.knowledge-changing")
 		return
 	}
